@@ -1,4 +1,5 @@
 import LexVerif.Proof.RoundTripModel
+import LexVerif.Model.WriteBinaryOpts
 /-!
 # Props.C15Write — the writer half of C15, stated on the buffer-faithful `write_float` model
 
@@ -111,6 +112,68 @@ theorem disabled_special_panics (feats : Features) (f : Fmt) (fmt : Format) (o :
   | false =>
     simp only [hn, Bool.false_eq_true, if_false] at hnone
     simp [hnone, writeSpecial, onTail, finalCheck]
+
+/-! ## the power-of-two writers (`binary.rs` / `hex.rs`; model `WriteBinary.writeFloatO`, `none` = panic)
+
+The same clauses for every format whose mantissa radix is 2, 4, 8, 16 or 32 (any exponent base), every option set. -/
+section pow2
+open LexVerif.Model.WriteBinary
+
+/-- the model's NaN test: exponent field all ones and a non-zero fraction -/
+def isNaNBits (t : Dragonbox.FTy) (bits : Nat) : Prop :=
+  (bits &&& (t.signMask - 1)) &&& t.exponentMask = t.exponentMask ∧ (bits &&& (t.signMask - 1)) &&& t.mantissaMask ≠ 0
+/-- exponent field all ones -/
+def isSpecialBits (t : Dragonbox.FTy) (bits : Nat) : Prop :=
+  (bits &&& (t.signMask - 1)) &&& t.exponentMask = t.exponentMask
+
+/-- NaN: the configured string after at most a `+`; a disabled string panics (`none`) -/
+theorem pow2_nan_written (fmt : Format) (feats : Features) (o : WOpts) (t : Dragonbox.FTy) (bits : Nat)
+    (h : isNaNBits t bits) :
+    writeFloatO fmt feats o t bits = o.nan.map (plusText feats fmt ++ ·) := by
+  unfold isNaNBits at h
+  unfold writeFloatO writeFloatOWith plusText
+  simp only [h, and_self, ne_eq, not_false_eq_true, not_true_eq_false, and_false, if_false, if_true]
+
+/-- ±infinity: `-` iff the sign bit is set, then the configured string; a disabled string panics (`none`) -/
+theorem pow2_inf_written (fmt : Format) (feats : Features) (o : WOpts) (t : Dragonbox.FTy) (bits : Nat)
+    (hs : isSpecialBits t bits) (hn : ¬ isNaNBits t bits) :
+    writeFloatO fmt feats o t bits =
+      o.inf.map ((if bits &&& t.signMask ≠ 0 then [45] else plusText feats fmt) ++ ·) := by
+  unfold isSpecialBits at hs
+  unfold isNaNBits at hn
+  unfold writeFloatO writeFloatOWith plusText
+  simp only [hs, true_and] at hn ⊢
+  simp only [hn, not_false_eq_true, and_true, if_false, if_true]
+
+/-- finite values, ±0 included: the call returns, and the text starts with `-` iff the sign bit is set -/
+theorem pow2_finite_written (fmt : Format) (feats : Features) (o : WOpts) (t : Dragonbox.FTy) (bits : Nat)
+    (hs : ¬ isSpecialBits t bits) :
+    ∃ body, writeFloatO fmt feats o t bits =
+      some ((if bits &&& t.signMask ≠ 0 then [45] else plusText feats fmt) ++ body) := by
+  unfold isSpecialBits at hs
+  unfold writeFloatO writeFloatOWith plusText
+  simp only [hs, false_and, not_false_eq_true, and_true, if_false]
+  exact ⟨_, rfl⟩
+
+/-- non-vacuity: `-NaN` (f64, sign bit set) satisfies the hypothesis and is written `NaN` in hexadecimal;
+`-inf` is written `-inf`; `-0.0` starts with `-` -/
+example : isNaNBits .f64 0xFFF8000000000000 ∧
+    writeFloatO (⟨12 + 16 * 2 ^ 104 + 16 * 2 ^ 112 + 10 * 2 ^ 120⟩) { powerOfTwo := true } { exp := 94 } .f64 0xFFF8000000000000
+      = some [78, 97, 78] := by
+  unfold isNaNBits
+  decide +kernel
+example : isSpecialBits .f64 0xFFF0000000000000 ∧ ¬ isNaNBits .f64 0xFFF0000000000000 ∧
+    writeFloatO (⟨12 + 16 * 2 ^ 104 + 16 * 2 ^ 112 + 10 * 2 ^ 120⟩) { powerOfTwo := true } { exp := 94 } .f64 0xFFF0000000000000
+      = some [45, 105, 110, 102] := by
+  unfold isNaNBits isSpecialBits
+  decide +kernel
+example : ¬ isSpecialBits .f64 0x8000000000000000 ∧
+    (writeFloatO (⟨12 + 16 * 2 ^ 104 + 16 * 2 ^ 112 + 10 * 2 ^ 120⟩) { powerOfTwo := true } { exp := 94 } .f64 0x8000000000000000).map
+      (·.head?) = some (some 45) := by
+  unfold isSpecialBits
+  decide +kernel
+
+end pow2
 
 /-! ## non-vacuity: concrete completed calls (f64, default format and options) -/
 
